@@ -21,7 +21,7 @@ STUBS = ["log_likelihood_alleles_cached -> ln L_i(sorted alleles), one positive 
          "np.random.randint / np.random.rand in pair_allele_swap_step -> forced indices; add_log_prob / normalise_log_probs summaries (lemmas in C17)"]
 ASSUMES = ["allele frequencies symbolic > 0 summing to one; per-(sample,parent) error rates symbolic in (0,1); lambda symbolic in (0,1) for tetraploid parents with tau = 2 in the lambda configurations",
            "target joint: prod_i L_i(g_i) * oracle trio pmf(g_i | parents) (the gamete-pair oracle C17 proves equal to trio_log_pmf)"]
-BOUNDS = {"quick": "pedigrees: diploid founder, diploid duo, diploid trio, tetraploid trio (2 alleles), 2x*4x->3x trio (unbalanced), selfed diploid; all joint states over 2 alleles, every target individual, allele copy and candidate allele; swap move on the trios",
+BOUNDS = {"quick": "pedigrees: diploid founder, diploid duo, diploid trio (parents first and progeny first), tetraploid trio (2 alleles), 2x*4x->3x trio (unbalanced), selfed diploid; all joint states over 2 alleles, every target individual, allele copy and candidate allele; swap move on the trios",
           "thorough": "adds diploid trio with 3 alleles, tetraploid trio with lambda, half-sibs (5 individuals), three generations, clone tau=(0,2), 4x*2x->3x, unknown-parent duo with unbalanced tau"}
 OUTSIDE = "larger pedigrees / ploidies; the read model (C04); float rounding; ergodicity"
 TASKS_PER_CHILD = 4
@@ -34,7 +34,10 @@ PEDS = {
     "trio4": dict(ploidy=[4, 4, 4], parents=[[-1, -1], [-1, -1], [0, 1]], tau=[[2, 2], [2, 2], [2, 2]], nA=2),
     "trio243": dict(ploidy=[2, 4, 3], parents=[[-1, -1], [-1, -1], [0, 1]], tau=[[1, 1], [2, 2], [1, 2]], nA=2),
     "self2": dict(ploidy=[2, 2], parents=[[-1, -1], [0, 0]], tau=[[1, 1], [1, 1]], nA=2),
+    # sample order is free: the progeny may be listed before its parents (index 0 is a child)
+    "trio2cf": dict(ploidy=[2, 2, 2], parents=[[1, 2], [-1, -1], [-1, -1]], tau=[[1, 1], [1, 1], [1, 1]], nA=2),
     # thorough
+    "sibs4cf": dict(ploidy=[2, 2, 2, 2], parents=[[2, 3], [2, 3], [-1, -1], [-1, -1]], tau=[[1, 1]] * 4, nA=2),
     "trio2a3": dict(ploidy=[2, 2, 2], parents=[[-1, -1], [-1, -1], [0, 1]], tau=[[1, 1], [1, 1], [1, 1]], nA=3),
     "trio4lam": dict(ploidy=[4, 4, 4], parents=[[-1, -1], [-1, -1], [0, 1]], tau=[[2, 2], [2, 2], [2, 2]], nA=2, lam=True),
     "halfsibs": dict(ploidy=[2] * 5, parents=[[-1, -1], [-1, -1], [-1, -1], [0, 1], [0, 2]], tau=[[1, 1]] * 5, nA=2),
@@ -43,8 +46,8 @@ PEDS = {
     "trio423": dict(ploidy=[4, 2, 3], parents=[[-1, -1], [-1, -1], [0, 1]], tau=[[2, 2], [1, 1], [2, 1]], nA=2),
     "duo3unb": dict(ploidy=[4, 3], parents=[[-1, -1], [0, -1]], tau=[[2, 2], [2, 1]], nA=2),
 }
-QUICK = ["founder2", "founder4", "duo2", "trio2", "trio4", "trio243", "self2"]
-THOROUGH = QUICK + ["trio2a3", "trio4lam", "halfsibs", "threegen", "clone2", "trio423", "duo3unb"]
+QUICK = ["founder2", "founder4", "duo2", "trio2", "trio4", "trio243", "self2", "trio2cf"]
+THOROUGH = QUICK + ["sibs4cf", "trio2a3", "trio4lam", "halfsibs", "threegen", "clone2", "trio423", "duo3unb"]
 CHUNK = 9
 
 
